@@ -60,4 +60,17 @@ UniversalDefined(q, h) == Src(q) = Len(h) /\ ConstOnFibres(q, h)
 \* u is a universal map: q ; u = h.  (positions of u outside the image of q are unconstrained)
 IsUniversal(q, h, u) == Len(u) = q.target /\ \A i \in 1 .. Len(h) : u[q.table[i] + 1] = h[i]
 CanonUniversal(q, h) == [c \in 1 .. q.target |-> h[CHOOSE i \in 1 .. Len(h) : q.table[i] = c - 1]]
+
+(* ---- semifinite functions (label arrays) and the category of finite/semifinite arrows ---- *)
+\* arrows: [kind |-> "identity"] | [kind |-> "finite", f |-> FF] | [kind |-> "semifinite", labels |-> seq]
+\* objects: [kind |-> "finite", n |-> k] | [kind |-> "set"]
+SFASource(x) == CASE x.kind = "finite" -> [kind |-> "finite", n |-> Src(x.f)]
+                  [] x.kind = "semifinite" -> [kind |-> "finite", n |-> Len(x.labels)]
+                  [] OTHER -> [kind |-> "set"]
+SFATarget(x) == IF x.kind = "finite" THEN [kind |-> "finite", n |-> x.f.target] ELSE [kind |-> "set"]
+\* composition is defined exactly for finite ; finite and finite ; semifinite with matching middle object
+SFAComposeDefined(x, y) == x.kind = "finite" /\ ((y.kind = "finite" /\ FComposable(x.f, y.f)) \/ (y.kind = "semifinite" /\ x.f.target = Len(y.labels)))
+SFACompose(x, y) == IF y.kind = "finite" THEN [kind |-> "finite", f |-> FCompose(x.f, y.f)]
+                    ELSE [kind |-> "semifinite", labels |-> Thru(x.f.table, y.labels)]
+SFAIdentity(o) == IF o.kind = "finite" THEN [kind |-> "finite", f |-> FIdentity(o.n)] ELSE [kind |-> "identity"]
 =============================================================================
